@@ -142,7 +142,9 @@ class Env:
         if s.get('retry'):
             kw['retry'] = s['retry']
         callables = s.get('callables', False)
-        if callables:
+        if s.get('noallowed'):
+            kw['allowed_exceptions'] = ()
+        elif callables:
             kw['allowed_exceptions'] = lambda e: isinstance(e, AllowedExc)
         else:
             kw['allowed_exceptions'] = (AllowedExc,)
@@ -240,6 +242,8 @@ class Env:
                     self.run_ops(op[1])
                     rec.point()
                     rec.emit('Body', op='unnest')
+            elif name == 'failcommit':    # the next DB-API commit raises (commit-time error of this attempt)
+                rec.fail_next = 'commit'
             elif name == 'call':          # harness hook (fork scenarios)
                 op[1]()
             else:
@@ -311,6 +315,32 @@ class Env:
             rec.emit('BodyEnd', out=end)
             raise EXC[end]('body raises')
 
+        async def co_body():
+            att = attempts[0]
+            runs[0] += 1
+            rec.point()
+            rec.forget_pending()
+            rec.emit('BodyStart')
+            try:
+                for i, seg in enumerate(att['segments']):
+                    if i:
+                        rec.point()
+                        rec.emit('Body', op='yield')
+                        await _Suspend()
+                    self.run_ops(seg)
+            except GeneratorExit:
+                raise
+            except BaseException as e:
+                rec.emit('BodyEnd', out=kind_of(e))
+                raise
+            end = att.get('end', 'return')
+            rec.point()
+            if end == 'return':
+                rec.emit('BodyEnd', out='ok')
+                return
+            rec.emit('BodyEnd', out=end)
+            raise EXC[end]('body raises')
+
         kw = self.session_kwargs(s)
         rec.point()
         rec.emit('Start', form=form, kind=spec_kind, retry=s.get('retry', 0), dbr=bool(s.get('dbr')))
@@ -323,7 +353,7 @@ class Env:
             elif form == 'dec':
                 db_session(**kw)(body_once)()
             elif form == 'gen':
-                g = db_session(**kw)(gen_body)()
+                g = db_session(**kw)(co_body if s.get('coroutine') else gen_body)()
                 first = True
                 while True:
                     try:
@@ -371,6 +401,11 @@ class Env:
     def dump(self):
         """Set of write ids whose effect is present in the database file (independent connection)."""
         return dump_writes(self.path, self.wmap or {})
+
+
+class _Suspend:
+    def __await__(self):
+        yield 'suspended'
 
 
 def _has(args, x):
@@ -445,7 +480,7 @@ def run_scenario(scratch, threads, fault=None, policy=None, followup=True, timeo
         rec.emit('Dump', a=1, dump=sorted(d))
     else:
         rec.emit('Stuck', a=1)
-    trace = dict(nthreads=nact, faults=1 if fault else 0, fowner=(rec.fault_hit[0] if rec.fault_hit else 1),
+    trace = dict(nthreads=nact, faults=max(rec.nfaults, 1 if fault else 0), fowner=(rec.fault_hit[0] if rec.fault_hit else 1),
                  evs=[{k: v for k, v in e.items() if not k.startswith('_')} for e in rec.events])
     out = dict(trace=trace, ends=ends, calls=rec.calls, call_log=list(rec.call_log), fault_hit=rec.fault_hit,
                stuck=stuck, errors=errors, unexpected=list(rec.unexpected), schedule=list(sch.choices),
@@ -463,7 +498,7 @@ TRACE_CFG = '''CONSTANTS
  MaxWrites = 1000
  MaxRetry = 5
  MaxNest = 3
- MaxFaults = 1
+ MaxFaults = 5
  ConnPer = %d
  MaxForks = 2
  Forms = {"cm", "dec", "gen"}
